@@ -108,7 +108,7 @@ func sumUTXOs(m map[types.SiacoinOutputID]types.SiacoinElement) (c types.Currenc
 // of the wallet's unspent value, proofs are updated under core's
 // pre-conditions, and the revert restores outputs and events exactly.
 //
-//verif:harness prop=C06 tier=quick replay=interp require=applied,reverted bounds="wallet store with 0..2 outputs (symbolic values < 2^40); one block with: a miner payout to the wallet or to somebody else; optionally a v2 transaction spending a stored output and/or paying the wallet, optionally claiming siafunds (owner and claim address each the wallet or somebody else); optionally a resolved v2 contract whose host and/or renter output pays the wallet (symbolic values); an ephemeral output"
+//verif:harness prop=C06 tier=quick replay=interp require=applied,reverted bounds="wallet store with 0..2 outputs (symbolic values < 2^40); one block with: a miner payout to the wallet or to somebody else; optionally a v2 transaction spending a stored output (alone or jointly with a foreign input before/after it) and/or paying the wallet, optionally claiming siafunds (owner and claim address each the wallet or somebody else); optionally a resolved v2 contract whose host and/or renter output pays the wallet (symbolic values); an ephemeral output"
 func VerifH_C06_block() {
 	priv := types.NewPrivateKeyFromSeed(make([]byte, 32))
 	addr := types.StandardUnlockHash(priv.PublicKey())
@@ -150,13 +150,24 @@ func VerifH_C06_block() {
 	}
 	if vapi.Bool("with-txn") {
 		txn := types.V2Transaction{ArbitraryData: []byte{1}}
-		if nPre > 0 && vapi.Bool("txn-spends-stored") {
-			txn.SiacoinInputs = append(txn.SiacoinInputs, types.V2SiacoinInput{Parent: stored[0].Copy()})
-			sces = append(sces, consensus.SiacoinElementDiff{SiacoinElement: stored[0].Copy(), Spent: true})
-		} else {
-			foreign := types.SiacoinElement{ID: types.SiacoinOutputID{0xf0}, StateElement: types.StateElement{LeafIndex: 50}, SiacoinOutput: types.SiacoinOutput{Value: types.NewCurrency64(500), Address: other}}
+		foreign := types.SiacoinElement{ID: types.SiacoinOutputID{0xf0}, StateElement: types.StateElement{LeafIndex: 50}, SiacoinOutput: types.SiacoinOutput{Value: types.NewCurrency64(500), Address: other}}
+		addForeign := func() {
 			txn.SiacoinInputs = append(txn.SiacoinInputs, types.V2SiacoinInput{Parent: foreign.Copy()})
 			sces = append(sces, consensus.SiacoinElementDiff{SiacoinElement: foreign.Copy(), Spent: true})
+		}
+		if nPre > 0 && vapi.Bool("txn-spends-stored") {
+			// alone, or jointly funded with somebody else's input before or after it
+			joint := vapi.Int("joint-funding", 0, 2)
+			if joint == 1 {
+				addForeign()
+			}
+			txn.SiacoinInputs = append(txn.SiacoinInputs, types.V2SiacoinInput{Parent: stored[0].Copy()})
+			sces = append(sces, consensus.SiacoinElementDiff{SiacoinElement: stored[0].Copy(), Spent: true})
+			if joint == 2 {
+				addForeign()
+			}
+		} else {
+			addForeign()
 		}
 		txn.SiacoinOutputs = []types.SiacoinOutput{{Value: types.NewCurrency64(40), Address: pick("txn-pays-wallet")}, {Value: types.NewCurrency64(7), Address: other}}
 		var claim *types.SiacoinElement
